@@ -444,9 +444,16 @@ func sortColumns(ssl []sql.SortSpecification, qfields storage.Fields, rows []*st
 			if lhs == rhs {
 				continue
 			}
+			if rhs == nil {
+				// NULL sorts before any value
+				return ssl[sortIdx].OrderingSpecification.Type == sql.DESC
+			}
 
 			sortAsc := false
 			switch lhs.(type) {
+			case nil:
+				// NULL sorts before any value
+				sortAsc = true
 			case int64:
 				sortAsc = lhs.(int64) < rhs.(int64)
 			case string:
